@@ -40,6 +40,14 @@ def gen_payload(rng, ptype):
     p = {'type': ptype, 'critical': False}
     if ptype == SA:
         p['proposals'] = [gen_proposal(rng, i + 1) for i in range(rng.randrange(1, 5))]
+        # proposals that differ only in number / SPI / transform order (the same suite offered twice) are legal and common
+        if len(p['proposals']) > 1 and rng.random() < 0.3:
+            i, j = rng.sample(range(len(p['proposals'])), 2)
+            src = p['proposals'][i]
+            trs = [dict(t) for t in src['transforms']]
+            if rng.random() < 0.5:
+                rng.shuffle(trs)
+            p['proposals'][j] = {'num': p['proposals'][j]['num'], 'proto': src['proto'], 'spi': rb(rng, len(src['spi'])), 'transforms': trs}
     elif ptype == KE:
         p.update(group=rng.choice([14, 15, 19, 20, 21, 2, 31]), data=rb(rng, rng.choice([1, 32, 64, 132, 256])))
     elif ptype in (IDI, IDR):
